@@ -323,7 +323,10 @@ def p_stmt(s: dict[str, Any], lay: Layout) -> str:  # noqa: PLR0911, PLR0912, PL
     if t == "out":
         assert not lm
         l, r = _wc(s)
-        return "{{" + l + lay.ws(0 if l or lay.chance(0.2) else 1) + p_fexpr(s["e"], lay) + lay.ws(1) + r + "}}"
+        body = p_fexpr(s["e"], lay)
+        # `{{-1 }}` would read as a whitespace-control marker followed by 1: keep a space after `{{`
+        lead = lay.ws(1) if body.startswith(("-", "+", "~")) else lay.ws(0 if l or lay.chance(0.2) else 1)
+        return "{{" + l + lead + body + lay.ws(1) + r + "}}"
     if t == "raw":
         assert not lm
         w = s.get("wc4") or ["", "", "", ""]
